@@ -513,9 +513,262 @@ def request_grid(part):
     finally:
         w.close()
 
+def _key_material(resp):
+    if not resp.items or resp.items[0].payload is None:
+        return None
+    for path, node in W.ttlv.walk(resp.items[0].payload):
+        if node[0] == E.Tags.KEY_MATERIAL.value and node[1] == W.ttlv.BYTE_STRING:
+            return node[2]
+        if node[0] == E.Tags.SECRET_DATA.value and False:
+            return None
+    return None
+
+
+def request_grid_wide(part, tier='quick'):
+    """The laws through KMIP requests for the whole parameter space the payloads plumb: every
+    symmetric algorithm x key size x mode x padding (Encrypt/Decrypt), every MAC algorithm on keys and
+    secret data, every derivation method x hash x salt/data/iterations x length from symmetric keys
+    and secret data (the derived object is fetched back), RFC 3394 wrapping for every KEK size x
+    material length, Sign/SignatureVerify for every hash x padding x naming on a registered pair and
+    on pairs made by CreateKeyPair (incl. the wrong pair's public key), Create for every algorithm x
+    length. All on ONE long-lived engine, each family twice in different orders, so a result cached or
+    remembered across requests shows."""
+    T = E.Tags
+    W.CLOCK.now = W.T0
+    W.use_rsa_pool()
+    w = W.World()
+    MASK = [W.attr(W.AT.CRYPTOGRAPHIC_USAGE_MASK, list(CUM))]
+    V = (1, 4)
+
+    def reg_sym(alg, key):
+        r = w.do(V, W.p_register(W.pie_symmetric(key, alg=ALG[alg], length=len(key) * 8), MASK))
+        if not r.items[0].ok():
+            return None
+        w.do(V, W.p_activate(r.uid()))
+        return r.uid()
+
+    try:
+        # ---- A. Encrypt / Decrypt --------------------------------------------------------------
+        for alg, sizes in KEY_SIZES.items():
+            bs = R.BLOCK.get(alg, 1)
+            for ksize in sizes:
+                key = key_patterns(ksize)[1]
+                kid = reg_sym(alg, key)
+                if kid is None:
+                    part.count('wide_register_refused')
+                    continue
+                for mode in (MODES if alg != 'RC4' else [None]):
+                    for padn in (PADS if mode in ('CBC', 'ECB') else [None]):
+                        for n in (1, bs if bs > 1 else 16, 2 * (bs if bs > 1 else 16) + 3):
+                            ivlen = 12 if mode == 'GCM' else bs
+                            iv = bytes(range(60, 60 + ivlen)) if mode not in ('ECB', None) else None
+                            aad = b'aad' if mode == 'GCM' else None
+                            params = W.crypto_params(
+                                cryptographic_algorithm=ALG[alg],
+                                block_cipher_mode=MODE[mode] if mode else None,
+                                padding_method=PAD[padn] if padn else None,
+                                tag_length=12 if mode == 'GCM' else None)
+                            r = w.do(V, W.p_encrypt(kid, params, message(n), iv, aad))
+                            part.count('cases')
+                            part.count('wide_requests')
+                            ok = r.items[0].ok()
+                            part.counters.setdefault('_out', set()).add(('w-enc', alg, ksize, mode, padn, ok))
+                            ctx = {'grid': 'requests-wide', 'family': 'encrypt', 'alg': alg, 'key_bytes': ksize,
+                                   'mode': mode, 'padding': padn, 'len': n}
+                            if not ok:
+                                continue
+                            part.count('wide_encrypt_ok')
+                            ct = r.pfind(T.DATA) or b''
+                            tag = r.pfind(T.AUTHENTICATED_ENCRYPTION_TAG)
+                            try:
+                                ref_ct, ref_tag = R.encrypt(alg, key, mode, message(n), iv, padn, aad, 12)
+                            except Exception:   # noqa
+                                ref_ct = None
+                            if ref_ct is not None and (ct != ref_ct or (mode == 'GCM' and tag != ref_tag)):
+                                part.violation("wide-ciphertext|%s|%s|%s" % (alg, mode, padn),
+                                               "Encrypt request %s-%d/%s/%s len=%d: cipher text/tag differ from "
+                                               "the reference" % (alg, ksize * 8, mode, padn, n), ctx)
+                            r2 = w.do(V, W.p_decrypt(kid, params, ct, iv, aad, tag))
+                            part.count('cases')
+                            if not r2.items[0].ok() or (r2.pfind(T.DATA) or b'') != message(n):
+                                part.violation("wide-inverse|%s|%s|%s" % (alg, mode, padn),
+                                               "Decrypt(Encrypt(m)) != m for %s-%d/%s/%s len=%d: %s" % (
+                                                   alg, ksize * 8, mode, padn, n, r2.brief()), ctx)
+        # ---- B. MAC ------------------------------------------------------------------------------
+        key = key_patterns(32)[0]
+        kid = reg_sym('AES', key)
+        sec = w.do(V, W.p_register(W.pie_secret(key[:20]), MASK)).uid()
+        w.do(V, W.p_activate(sec))
+        HM = {'HMAC_MD5': 'MD5', 'HMAC_SHA1': 'SHA_1', 'HMAC_SHA224': 'SHA_224', 'HMAC_SHA256': 'SHA_256',
+              'HMAC_SHA384': 'SHA_384', 'HMAC_SHA512': 'SHA_512'}
+        for order in (list(HM), list(reversed(list(HM)))):
+            for name in order:
+                for uid, k in ((kid, key), (sec, key[:20])):
+                    for data in (b'd', message(100)):
+                        r = w.do(V, W.p_mac(uid, W.crypto_params(cryptographic_algorithm=ALG[name]), data))
+                        part.count('cases')
+                        part.count('wide_requests')
+                        if r.items[0].ok() and r.pfind(T.MAC_DATA) != R.hmac(HM[name], k, data):
+                            part.violation("wide-mac|%s" % name, "MAC request %s over %d bytes differs from the "
+                                           "reference" % (name, len(data)),
+                                           {'grid': 'requests-wide', 'family': 'mac', 'alg': name})
+                        part.counters.setdefault('_out', set()).add(('w-mac', name, r.items[0].ok()))
+        for alg in ('AES', 'TRIPLE_DES', 'CAMELLIA'):
+            k = key_patterns(16 if alg != 'TRIPLE_DES' else 24)[0]
+            u = reg_sym(alg, k)
+            if u is None:
+                continue
+            r = w.do(V, W.p_mac(u, W.crypto_params(cryptographic_algorithm=ALG[alg]), message(40)))
+            part.count('cases')
+            if r.items[0].ok() and r.pfind(T.MAC_DATA) != R.cmac(alg, k, message(40)):
+                part.violation("wide-cmac|%s" % alg, "CMAC request with %s differs from the reference" % alg,
+                               {'grid': 'requests-wide', 'family': 'mac', 'alg': alg})
+        # ---- C. DeriveKey --------------------------------------------------------------------------
+        bases = [(kid, key), (sec, key[:20])]
+        combos = []
+        for h in R.HASHES:
+            for length in ((128, 256) if tier == 'quick' else (128, 192, 256)):
+                for salt in (None, b'salt', b'other-salt'):
+                    for data in (None, b'info'):
+                        combos.append((DM.HMAC, h, length, dict(derivation_data=data, salt=salt),
+                                       (lambda km, h=h, salt=salt, data=data, length=length:
+                                        R.hkdf(h, km, salt, data, length // 8))))
+                        if data is not None:
+                            combos.append((DM.NIST800_108_C, h, length, dict(derivation_data=data),
+                                           (lambda km, h=h, data=data, length=length:
+                                            R.kbkdf_counter(h, km, data, length // 8))))
+                        if salt is not None and data is None:
+                            for it in (1, 3):
+                                combos.append((DM.PBKDF2, h, length, dict(salt=salt, iteration_count=it),
+                                               (lambda km, h=h, salt=salt, it=it, length=length:
+                                                R.pbkdf2(h, km, salt, it, length // 8))))
+            combos.append((DM.HASH, h, 128, dict(), (lambda km, h=h: R.digest(h, km)[:16])))
+        for order in (combos, list(reversed(combos))):
+            for method, h, length, kwp, ref in order:
+                for uid, km in bases:
+                    params = W.cattrs.DerivationParameters(
+                        cryptographic_parameters=W.crypto_params(hashing_algorithm=HASH[h]), **kwp)
+                    r = w.do(V, W.p_derive_key([uid], method, params=params,
+                                               attrs=W.sym_attrs(length=length, masks=[CUM.ENCRYPT])))
+                    part.count('cases')
+                    part.count('wide_requests')
+                    part.counters.setdefault('_out', set()).add(('w-derive', method.name, h, length, r.items[0].ok()))
+                    ctx = {'grid': 'requests-wide', 'family': 'derive', 'method': method.name, 'hash': h,
+                           'length': length, 'params': sorted(k for k, v_ in kwp.items() if v_ is not None)}
+                    if not r.items[0].ok():
+                        continue
+                    part.count('wide_derive_ok')
+                    val = _key_material(w.do(V, W.p_get(r.uid())))
+                    try:
+                        want = ref(km)
+                    except Exception:   # noqa
+                        continue
+                    if val != want:
+                        part.violation("wide-derive|%s|%s" % (method.name, h),
+                                       "DeriveKey request %s/%s length=%d %s from a %d-byte base: stored %s, "
+                                       "reference %s" % (method.name, h, length, ctx['params'], len(km),
+                                                         (val or b'').hex()[:40], want.hex()[:40]), ctx)
+        # ---- D. key wrapping ----------------------------------------------------------------------
+        for ksize in (16, 24, 32):
+            kek = key_patterns(ksize)[1]
+            kek_id = reg_sym('AES', kek)
+            for msize in (16, 24, 32, 40):
+                mat = message(msize)
+                t = w.do(V, W.p_register(W.pie_symmetric(mat, length=msize * 8), MASK))
+                if not t.items[0].ok():
+                    continue
+                for rep_ in (1, 2):      # twice: the second answer must equal the first
+                    g = w.do(V, W.p_get(t.uid(), wrapping_spec=W.wrapping_spec(kek_id)))
+                    part.count('cases')
+                    part.count('wide_requests')
+                    if g.items[0].ok() and _key_material(g) != R.aes_key_wrap(kek, mat):
+                        part.violation("wide-wrap|kek=%d" % ksize,
+                                       "Get wrapped (%d-byte material under a %d-byte key, request %d) differs "
+                                       "from RFC 3394" % (msize, ksize, rep_),
+                                       {'grid': 'requests-wide', 'family': 'wrap', 'kek': ksize, 'material': msize})
+                plain = w.do(V, W.p_get(t.uid()))
+                if _key_material(plain) != mat:
+                    part.violation("wide-wrap-changed-stored-key", "after wrapped Gets the plain Get returns other "
+                                   "bytes", {'grid': 'requests-wide', 'family': 'wrap', 'kek': ksize,
+                                             'material': msize})
+        # ---- E. Sign / SignatureVerify ----------------------------------------------------------------
+        pairs = []
+        priv = w.do(V, W.p_register(W.pie_private(), MASK)).uid()
+        pub = w.do(V, W.p_register(W.pie_public(), MASK)).uid()
+        pairs.append((priv, pub))
+        for i in range(2):
+            r = w.do(V, W.p_create_key_pair(**W.rsa_pair_attrs(
+                pub_masks=(CUM.VERIFY,), priv_masks=(CUM.SIGN,))))
+            if r.items[0].ok():
+                pairs.append((r.pfind(T.PRIVATE_KEY_UNIQUE_IDENTIFIER), r.pfind(T.PUBLIC_KEY_UNIQUE_IDENTIFIER)))
+        for a, b in pairs:
+            w.do(V, W.p_activate(a))
+            w.do(V, W.p_activate(b))
+        DSA = {'MD5': 'MD5_WITH_RSA_ENCRYPTION', 'SHA_1': 'SHA1_WITH_RSA_ENCRYPTION',
+               'SHA_224': 'SHA224_WITH_RSA_ENCRYPTION', 'SHA_256': 'SHA256_WITH_RSA_ENCRYPTION',
+               'SHA_384': 'SHA384_WITH_RSA_ENCRYPTION', 'SHA_512': 'SHA512_WITH_RSA_ENCRYPTION'}
+        for pi, (priv_, pub_) in enumerate(pairs):
+            other_pub = pairs[(pi + 1) % len(pairs)][1]
+            for h in DSA:
+                for padn in ('PKCS1v15', 'PSS'):
+                    for how in ('alg+hash', 'dsa'):
+                        if how == 'dsa':
+                            sp = W.crypto_params(digital_signature_algorithm=E.DigitalSignatureAlgorithm[DSA[h]],
+                                                 padding_method=PAD[padn])
+                        else:
+                            sp = W.crypto_params(cryptographic_algorithm=ALG.RSA, hashing_algorithm=HASH[h],
+                                                 padding_method=PAD[padn])
+                        r = w.do(V, W.p_sign(priv_, sp, b'message'))
+                        part.count('cases')
+                        part.count('wide_requests')
+                        sig = r.pfind(T.SIGNATURE_DATA) if r.items[0].ok() else None
+                        part.counters.setdefault('_out', set()).add(('w-sign', h, padn, how, sig is not None))
+                        if not sig:
+                            continue
+                        part.count('wide_sign_ok')
+                        ctx = {'grid': 'requests-wide', 'family': 'sign', 'pair': pi, 'hash': h, 'padding': padn,
+                               'how': how}
+                        for what, k_, m_, s_, want in (
+                                ('same', pub_, b'message', sig, E.ValidityIndicator.VALID),
+                                ('other-message', pub_, b'messagf', sig, E.ValidityIndicator.INVALID),
+                                ('flipped-signature', pub_, b'message', flip(sig, 7), E.ValidityIndicator.INVALID),
+                                ('other-pair', other_pub, b'message', sig, E.ValidityIndicator.INVALID)):
+                            if len(pairs) == 1 and what == 'other-pair':
+                                continue
+                            v_ = w.do(V, W.p_signature_verify(k_, sp, m_, s_))
+                            part.count('cases')
+                            got = v_.pfind(T.VALIDITY_INDICATOR) if v_.items[0].ok() else None
+                            if got != want.value and not (want == E.ValidityIndicator.INVALID and got is None):
+                                part.violation("wide-verify|%s|%s" % (what, padn),
+                                               "SignatureVerify(%s) for %s/%s/%s on pair %d: validity %s, expected "
+                                               "%s (%s)" % (what, h, padn, how, pi, got, want.name, v_.brief()), ctx)
+        # ---- F. Create: exact length, fresh, from the entropy seam ------------------------------------
+        for alg, sizes in KEY_SIZES.items():
+            for ksize in sizes:
+                seen = []
+                for i in range(2):
+                    c0 = len(W.ENTROPY.calls)
+                    r = w.do(V, W.p_create(W.sym_attrs(alg=ALG[alg], length=ksize * 8)))
+                    part.count('cases')
+                    part.count('wide_requests')
+                    if not r.items[0].ok():
+                        break
+                    val = _key_material(w.do(V, W.p_get(r.uid())))
+                    if val is None or len(val) != ksize or val in seen or W.ENTROPY.calls[c0:] != [ksize]:
+                        part.violation("wide-create|%s" % alg,
+                                       "Create(%s, %d bits) #%d: value of %s bytes, entropy calls %s, repeated=%s"
+                                       % (alg, ksize * 8, i + 1, None if val is None else len(val),
+                                          W.ENTROPY.calls[c0:], val in seen),
+                                       {'grid': 'requests-wide', 'family': 'create', 'alg': alg, 'bytes': ksize})
+                    seen.append(val)
+        part.sample({'grid': 'requests-wide', 'families': ['encrypt', 'mac', 'derive', 'wrap', 'sign', 'create']})
+    finally:
+        w.close()
+
 
 GRIDS = {'symmetric': symmetric_grid, 'mac': mac_grid, 'derive': derive_grid, 'wrap': wrap_grid,
-         'sign': sign_grid, 'keygen': keygen_grid, 'requests': request_grid}
+         'sign': sign_grid, 'keygen': keygen_grid, 'requests': request_grid,
+         'requests-wide': request_grid_wide}
 
 
 def _worker(task):
@@ -539,8 +792,12 @@ def run(tier, seed):
         distinct += part.pop('out', 0)
         rep.merge(part)
     n = rep.counters.get('cases', 0)
+    wide = {k: rep.counters.get(k, 0) for k in ('wide_requests', 'wide_encrypt_ok', 'wide_derive_ok',
+                                                'wide_sign_ok', 'wide_register_refused')}
     if n < 10000 or distinct < 1000:
         rep.harness_error("vacuous: %d cases, %d outcome classes" % (n, distinct))
+    if wide['wide_encrypt_ok'] < 150 or wide['wide_derive_ok'] < 400 or wide['wide_sign_ok'] < 40:
+        rep.harness_error("vacuous wide request grid: %s" % wide)
     return rep.finish(dict(
         evaluations=n, distinct_nontrivial=distinct,
         rule="complete grids: 7 symmetric algorithms x key sizes x 2 key patterns x 6 modes x paddings x 6 "
@@ -549,9 +806,16 @@ def run(tier, seed):
              "over 6 block ciphers; 4 derivation methods x 6 hashes x lengths x data x salt x iterations "
              "(+HASH, ENCRYPT); RFC 3394 for 3 KEK sizes x 6 material lengths; sign/verify for 6 hashes x "
              "2 paddings x 2 ways of naming the algorithm x 5 verification variants; key generation for 11 "
-             "algorithms x lengths x 3 consecutive calls; and the same laws through KMIP requests. "
+             "algorithms x lengths x 3 consecutive calls; and the same laws through KMIP requests - a "
+             "narrow grid (AES-128) and a wide one on ONE long-lived engine: Encrypt/Decrypt for every "
+             "algorithm x key size x mode x padding x 3 lengths, 6 HMACs on a key and on secret data in "
+             "both orders, CMAC for 3 ciphers, DeriveKey for 4 methods x 6 hashes x salt/data/iterations "
+             "x lengths from a key and from secret data (derived object fetched back) in both orders, "
+             "RFC 3394 Get-wrapped for 3 KEK sizes x 4 material lengths (twice each, then a plain Get), "
+             "Sign/SignatureVerify for 6 hashes x 2 paddings x 2 namings on a registered pair and two "
+             "CreateKeyPair pairs incl. the other pair's public key, Create for every algorithm x size. "
              "distinct_nontrivial = distinct (grid cell class, outcome) pairs",
-        exhaustive=True,
+        exhaustive=True, **wide
     ), assumptions=[
         "os.urandom inside the crypto engine is a counter stream owned by the harness: freshness and "
         "exact length of generated IVs/keys are decided by the calls made, not by statistics",
